@@ -133,7 +133,7 @@ CASES = [
 #endif
 
     // Finally clean up any remaining fields in the transit event""")]),
- dict(name="b-c05-min-selection-rewritten", ids=["C05", "C03"], subs=[("backend/BackendWorker.h", "if (te && (min_ts > te->timestamp))", "if ((te != nullptr) && (te->timestamp < min_ts))")]),
+ dict(name="b-c05-min-selection-rewritten", ids=["C05", "C03"], subs=[("backend/BackendWorker.h", "if (te && (!thread_context || (min_ts > te->timestamp)))", "if ((te != nullptr) && ((thread_context == nullptr) || (te->timestamp < min_ts)))")]),
  dict(name="b-c03-extra-metrics", ids=["C03", "C05", "C06", "C09", "C10"], subs=[("backend/BackendWorker.h", """      frontend_queue.finish_read(bytes_read);
       total_bytes_read += bytes_read;""", """      frontend_queue.finish_read(bytes_read);
       total_bytes_read += bytes_read;
